@@ -87,7 +87,8 @@ class PGen:
 
     # ---- members
     def small(self):
-        return self.r.choice([B, ["name", "Int16ub"], ["name", "Int8sb"], ["Bytes", 1], ["name", "Flag"], ["BytesInteger", 3, False, True], ["name", "Int16sl"]])
+        return self.r.choice([B, ["name", "Int16ub"], ["name", "Int8sb"], ["Bytes", 1], ["name", "Flag"], ["BytesInteger", 3, False, True], ["name", "Int16sl"],
+                              ["name", "Int16un"], ["name", "Int32sn"], ["FormatField", "=", "H"], ["name", "Float32n"], ["name", "Int24un"]])     # (native byte order too)
 
     def member(self, paths, depth, idx):
         r = self.r
@@ -134,11 +135,15 @@ class PGen:
             lambda: ["ProcessXor", ["bin", "|", E(), 1], B] if False else ["RawCopy", X()], lambda: ["Bitwise", ["BitsInteger", ["bin", "*", ["bin", "+", ["bin", "&", E(), 1], 1], 8], False, r.random() < 0.3]],
             lambda: ["StopIf", ["bin", "==", E(), 99]], lambda: ["Optional", ["Const", tag(b"\xfe"), None]] if False else ["Select", [["Const", tag(b"\xfe"), None], B]],
             lambda: ["RestreamData", tag(b"\x01\x02"), ["name", "Int16ub"]],
+            # structures all of whose members build from nothing (their value may be left out: the enclosing structure hands None down)
+            lambda: ["Struct", [["magic", ["Const", tag(b"x"), None]], ["c", ["Computed", EN()]], [None, ["Padding", 1]]]],
+            lambda: ["Sequence", [[None, ["Const", tag(b"A"), None]], ["d", ["Default", B, ["bin", "&", EN(), 3]]], [None, ["Padding", 1]]]],
+            lambda: ["Struct", [["hdr", ["Struct", [["sig", ["Const", 2, B]], ["r", ["Rebuild", B, ["bin", "&", ["this", "_", "_", "n"], 3]]]]]], ["q", ["Sequence", [[None, ["Const", tag(b"Q"), None]]]]]]],
         ]
         if getattr(self, "force_derived", False):
             # programs dedicated to members that build derives by itself inside Sequence / Struct / FocusedSeq (and whose values
             # steer later members): the templates are picked out of the list by what they contain
-            tt = [f for f in t if any(k in repr(f()) for k in ("'Rebuild'", "'Default'"))]
+            tt = [f for f in t if any(k in repr(f()) for k in ("'Rebuild'", "'Default'", "'magic'", "'hdr'"))]
             return r.choice(tt)()
         return r.choice(t)()
 
@@ -419,6 +424,16 @@ def peek_failed(prog, value, d=None, data=None, kw=None):
 DERIVED = ("Rebuild", "Default", "Const", "Computed")
 
 
+def from_nothing(m):
+    """a member that builds from nothing: derived leaves, padding, and structures all of whose members do (their value may be
+    left out altogether - the enclosing structure then hands None down)"""
+    if m[0] in DERIVED or m[0] == "Padding":
+        return True
+    if m[0] in ("Struct", "Sequence"):
+        return all(from_nothing(x) for _, x in m[1])
+    return False
+
+
 def blank_derived(r, v):
     k = r[0]
     if k == "Struct" and isinstance(v, dict):
@@ -426,12 +441,12 @@ def blank_derived(r, v):
         for nm, m in r[1]:
             if nm is None or nm not in v:
                 continue
-            if m[0] in DERIVED:
+            if from_nothing(m):
                 continue
             out[nm] = blank_derived(m, v[nm])
         return out
     if k == "Sequence" and isinstance(v, list):
-        return [None if m[0] in DERIVED else blank_derived(m, x) for (nm, m), x in zip(r[1], v)]
+        return [None if from_nothing(m) else blank_derived(m, x) for (nm, m), x in zip(r[1], v)]
     if k == "Array" and isinstance(v, list):
         return [blank_derived(r[2], x) for x in v]
     return v
@@ -452,11 +467,14 @@ def blank_one_by_one(r, v, limit=8):
                     continue
                 if m[0] in DERIVED:
                     out.append(put({kk: vv for kk, vv in v.items() if kk != nm}))
+                elif from_nothing(m):
+                    out.append(put({kk: vv for kk, vv in v.items() if kk != nm}))
+                    out.append(put(dict(v, **{nm: None})))
                 else:
                     rec(m, v[nm], lambda x, nm=nm: put(dict(v, **{nm: x})), depth + 1)
         elif k == "Sequence" and isinstance(v, list):
             for i, ((nm, m), x) in enumerate(zip(r[1], v)):
-                if m[0] in DERIVED:
+                if m[0] in DERIVED or from_nothing(m):
                     out.append(put(list(v[:i]) + [None] + list(v[i + 1:])))
                 else:
                     rec(m, x, lambda y, i=i: put(list(v[:i]) + [y] + list(v[i + 1:])), depth + 1)
@@ -491,10 +509,37 @@ def strip(v):
     return s if len(s) < 400 else s[:400] + "..."
 
 
+def twin_programs():
+    """programs with the same skeleton that differ only inside members the compiler links to instead of translating (their text
+    does not appear in the generated source): compiled one after the other in one process, each must behave as its own interpreter"""
+    GB = ["name", "GreedyBytes"]
+    pairs = [
+        (["OneOf", B, [1, 2]], ["OneOf", B, [0, 3, 200]]), (["Select", [B, ["name", "Int16ub"]]], ["Select", [["name", "Int16ub"], B]]), (["RawCopy", B], ["RawCopy", ["name", "Int16ub"]]),
+        (["CString", "ascii"], ["CString", "utf16"]), (["Optional", ["Const", tag(b"\x01"), None]], ["Optional", ["Const", tag(b"\x00"), None]]),
+        (["ByteSwapped", ["name", "Int16ub"]], ["ByteSwapped", ["name", "Int24ub"]]), (["NullTerminated", GB, tag(b"\x00")], ["NullTerminated", GB, tag(b"\x01")]),
+        (["Bitwise", ["Struct", [["a", ["name", "Nibble"]], ["b", ["name", "Nibble"]]]]], ["Bitwise", ["Struct", [["a", ["BitsInteger", 3, False, False]], ["b", ["BitsInteger", 5, True, False]]]]]),
+        (["name", "VarInt"], ["name", "ZigZag"]), (["PaddedString", 2, "ascii"], ["PaddedString", 4, "utf16"]), (["ProcessXor", 1, ["Bytes", 1]], ["ProcessXor", 255, ["Bytes", 1]]),
+        (["ExprAdapter", B, ["bin", "+", ["obj"], 1], ["bin", "-", ["obj"], 1]], ["ExprAdapter", B, ["bin", "*", ["obj"], 2], ["bin", "//", ["obj"], 2]]),
+        (["Slicing", ["Array", 2, B], 2, 0, 1, 1, 0], ["Slicing", ["Array", 2, B], 2, 1, 2, 1, 0]),
+    ]
+    head = [["n", B], ["m", ["name", "Int16ub"]], ["f", ["name", "Flag"]], ["s", ["PascalString", B, "ascii"]], ["e", ["Enum", B, [["a", 1], ["b", 2]]]], ["b2", ["Bytes", 2]]]
+    out = []
+    for x1, x2 in pairs:
+        for tailm in ([["t", B]], [["t", B], ["p", ["Bytes", ["bin", "&", ["this", "n"], 1]]]]):
+            out.append((["Struct", head + [["v", x1]] + tailm], ["Struct", head + [["v", x2]] + tailm]))
+    return out
+
+
 def run(ctx):
     rng = ctx.rng
     n = ctx.pick(1500, 40000) // ctx.nworkers
     nin = ctx.pick(30, 80)
+    for j, (p1, p2) in enumerate(twin_programs()):
+        if ctx.mine(j):
+            ins = inputs(rng, nin)
+            for prog in (p1, p2, p1):
+                run_program(ctx, prog, {"k": 1}, ins)
+            ctx.count("twin_program_pairs")
     for _ in range(ctx.pick(2, 6)):
         run_rooted(ctx, rng)
     for i in range(n):
